@@ -154,6 +154,45 @@ theorem one_error_with_flag (sort : List Rule → List Rule) (rules : List Rule)
 example : processRules stableSort false [⟨1, 5, true⟩, ⟨2, 0, false⟩, ⟨3, 3, true⟩]
     = ([⟨2, 0, false⟩, ⟨3, 3, true⟩, ⟨1, 5, true⟩], [⟨3, 3, true⟩, ⟨1, 5, true⟩]) := by decide
 
+/-- **The flag is part of the processor's configuration, not of its run state**: no sequence of
+    `Start` / `Finish` / `Reset` / `AddRule` calls changes `failOnFirstError`; after any history
+    it has the value of the last `SetFailOnFirstErrorInTriggerSequence` call (the initial value
+    if there was none). In particular the ECAL default set once by `NewECALRuntimeProvider`
+    survives the `Finish`–`Reset`–reload–`Start` cycle of `CLIInterpreter.LoadInitialFile`. -/
+theorem flag_survives_lifecycle (p : Proc) (ops : List LOp)
+    (h : ∀ op ∈ ops, ∀ b, op ≠ .setFlag b) : (p.run ops).flag = p.flag := by
+  unfold Proc.run
+  induction ops generalizing p with
+  | nil => rfl
+  | cons op ops ih =>
+    simp only [List.foldl_cons]
+    rw [ih _ (fun o ho => h o (List.mem_cons_of_mem _ ho))]
+    cases op with
+    | setFlag b => exact absurd rfl (h _ (List.mem_cons_self) b)
+    | start => rfl
+    | finish => rfl
+    | reset => simp only [Proc.step]; split <;> rfl
+    | addRules => simp only [Proc.step]; split <;> rfl
+
+theorem flag_is_last_set (p : Proc) (pre post : List LOp) (b : Bool)
+    (h : ∀ op ∈ post, ∀ b', op ≠ .setFlag b') : (p.run (pre ++ .setFlag b :: post)).flag = b := by
+  have : p.run (pre ++ .setFlag b :: post) = ((p.run pre).step (.setFlag b)).run post := by
+    simp [Proc.run, List.foldl_append]
+  rw [this, flag_survives_lifecycle _ _ h]
+  rfl
+
+/-- so the trigger sequence of an event added after a reload still ends at the first failing rule -/
+theorem fail_first_after_reload (sort : List Rule → List Rule) (p : Proc) (hp : p.flag = true)
+    (reloads : List LOp) (h : ∀ op ∈ reloads, ∀ b, op ≠ .setFlag b) (rules : List Rule) :
+    processRulesAfter sort p reloads rules
+      = (uptoFirstFail (sort rules), ((sort rules).find? (·.fails)).toList) := by
+  unfold processRulesAfter
+  rw [flag_survives_lifecycle p reloads h, hp]
+  exact (fail_first_prefix sort rules).1
+
+example : processRulesAfter stableSort { flag := true } [.finish, .reset, .addRules, .start]
+    [⟨1, 1, true⟩, ⟨2, 2, false⟩] = ([⟨1, 1, true⟩], [⟨1, 1, true⟩]) := by decide
+
 /-! ## the per-cascade queue -/
 
 theorem itemLt_strict : StrictTotal Item.lt where
